@@ -179,9 +179,9 @@ def gen_c16(rng, tier):
     for name in ['Abs', 'Sign', 'KeepPositives', 'KeepNegatives', 'Pipe', 'Buffered', 'Since', 'IncrementBy', 'DecrementBy', 'MultiplyBy', 'Filter', 'Count']:
         for n in (1, 3, 6):
             cases.append((name, [rng.randrange(-3, 4), rng.randrange(-3, 4)], [wide(n)]))
-    for name in ['Skip', 'First', 'Last', 'Shift', 'Change', 'Head'] if 'Head' in PARAM_IN else ['Skip', 'First', 'Last', 'Shift', 'Change']:
+    for name in ['Skip', 'First', 'Last', 'Shift', 'Change', 'Head']:
         for n in (2, 5):
-            cases.append((name, [rng.randrange(0, 3), rng.randrange(-5, 6)], [wide(n)]))
+            cases.append((name, [rng.randrange(1 if name == 'Last' else 0, 3), rng.randrange(-5, 6)], [wide(n)]))     # Last: count >= 1
     for name in ['Add', 'Subtract']:
         cases.append((name, [], [wide(4), wide(5)]))
     # inputs that share one Duplicate upstream
